@@ -690,7 +690,7 @@ func (fc *FnCtx) obligeSplit(b *ssa.BasicBlock, kind string, goal Term, text str
 		if len(fc.obls) > 0 && i < len(fc.lastVias) {
 			o := fc.obls[len(fc.obls)-1]
 			o.Via = fc.lastVias[i]
-			if i < len(fc.lastFroms) && fc.lastFroms[i] != nil && !noSlice {
+			if i < len(fc.lastFroms) && fc.lastFroms[i] != nil && !noSlice && len(fc.inlineStack) == 0 {
 				o.Slice, o.SliceKey = fc.sliceFor(fc.lastFroms[i], fc.lastChain)
 			}
 		}
@@ -1091,8 +1091,10 @@ func (fc *FnCtx) unrollLoop(li *loopInfo, order []*ssa.BasicBlock) {
 }
 
 func (fc *FnCtx) blockWith(b *ssa.BasicBlock, given []edgeOut, unrolled bool) {
-	fc.curBlock = b
-	defer func() { fc.curBlock = nil }()
+	if len(fc.inlineStack) == 0 {
+		fc.curBlock = b
+		defer func() { fc.curBlock = nil }()
+	}
 	// gather incoming edges (non-back)
 	var ins []edgeOut
 	if given != nil {
@@ -1160,7 +1162,16 @@ func (fc *FnCtx) blockWith(b *ssa.BasicBlock, given []edgeOut, unrolled bool) {
 	case *ssa.Jump:
 		outs = append(outs, edgeOut{to: b.Succs[0], cond: fc.reach, st: fc.st, from: b})
 	case *ssa.Return:
-		fc.doReturn(t)
+		if n := len(fc.inlineStack); n > 0 {
+			fr := fc.inlineStack[n-1]
+			var vs []Val
+			for _, rv := range t.Results {
+				vs = append(vs, fc.val(rv))
+			}
+			fr.rets = append(fr.rets, inlineRet{cond: fc.reach, st: fc.st, vals: vs})
+		} else {
+			fc.doReturn(t)
+		}
 	case *ssa.Panic:
 	default:
 		unsupported("terminator %T", last)
